@@ -129,7 +129,7 @@ func machineOnLog(w *World, r slog.Record) {
 			o.pre = (off - 32) / (o.ps + 24)
 		}
 		o.mid, _ = walSalts(w.dbPath + "-wal") // unreadable after TRUNCATE: zero salts, not used for that mode
-		o.traceLen = len(w.trace) // the INJ token of this very record (if any) is already appended: this hook runs deferred
+		o.traceLen = len(w.trace)              // the INJ token of this very record (if any) is already appended: this hook runs deferred
 	case "sync":
 		if !o.sawCkpt {
 			return
